@@ -4,7 +4,9 @@ import (
 	"context"
 	"encoding/binary"
 	"fmt"
+	"hash/fnv"
 	"net"
+	"sort"
 	"strings"
 	"sync"
 	"time"
@@ -12,6 +14,7 @@ import (
 	mqtt "github.com/eclipse/paho.mqtt.golang"
 	"github.com/orda-io/orda/client/pkg/model"
 	"github.com/orda-io/orda/server/service"
+	"go.mongodb.org/mongo-driver/bson"
 	"google.golang.org/grpc"
 	"google.golang.org/protobuf/proto"
 
@@ -118,10 +121,12 @@ func (c *MqttClient) Publish(topic string, qos byte, retained bool, payload inte
 	c.b.mu.Lock()
 	c.b.Publishes = append(c.b.Publishes, Publish{Topic: topic, Payload: string(b), By: c.Name})
 	var ds []*Delivery
-	for _, s := range c.b.subs {
+	subs := append([]*subscription{}, c.b.subs...)
+	sort.SliceStable(subs, func(i, j int) bool { return subs[i].client.Name < subs[j].client.Name })
+	for _, s := range subs {
 		if s.topic == topic {
-			c.b.seq++
-			ds = append(ds, &Delivery{Seq: c.b.seq, Sub: s, Topic: topic, Payload: b})
+			// deliveries are numbered by publish, independent of the order in which clients subscribed
+			ds = append(ds, &Delivery{Seq: len(c.b.Publishes), Sub: s, Topic: topic, Payload: b})
 		}
 	}
 	auto := c.b.Auto
@@ -339,7 +344,9 @@ type gatedConn struct {
 	sched *Sched
 }
 
-// commandOf extracts "name:collection" of an OP_MSG wire message ("" for anything else).
+// commandOf extracts "name:collection#digest" of an OP_MSG wire message ("" for anything else). The
+// digest covers the command without its session / cluster-time fields, so that two goroutines issuing
+// different commands of the same kind get different, schedule-independent labels.
 func commandOf(b []byte) string {
 	if len(b) < 16+4+1+4+2 {
 		return ""
@@ -348,21 +355,39 @@ func commandOf(b []byte) string {
 		return ""
 	}
 	doc := b[21:]
-	// first element: type byte, cstring key, value
-	typ := doc[4]
-	i := 5
-	for i < len(doc) && doc[i] != 0 {
-		i++
+	if len(doc) < 5 {
+		return ""
 	}
-	name := string(doc[5:i])
-	coll := ""
-	if typ == 0x02 && i+5 < len(doc) { // string value
-		l := int(binary.LittleEndian.Uint32(doc[i+1:]))
-		if i+5+l-1 <= len(doc) && l > 0 {
-			coll = string(doc[i+5 : i+5+l-1])
+	dl := int(binary.LittleEndian.Uint32(doc))
+	if dl > len(doc) || dl < 5 {
+		return ""
+	}
+	h := fnv.New64a()
+	name, coll := "", ""
+	raw := bson.Raw(doc[:dl])
+	elems, err := raw.Elements()
+	if err != nil {
+		return ""
+	}
+	for i, e := range elems {
+		k := e.Key()
+		if i == 0 {
+			name = k
+			if s, ok := e.Value().StringValueOK(); ok {
+				coll = s
+			}
 		}
+		switch k {
+		case "lsid", "$clusterTime", "txnNumber", "$readPreference", "autocommit", "startTransaction":
+			continue
+		}
+		h.Write([]byte(k))
+		h.Write(e.Value().Value)
 	}
-	return name + ":" + coll
+	// document sequences (updates / documents / deletes) follow section 0; times in them are virtual
+	rest := doc[dl:]
+	h.Write(rest)
+	return fmt.Sprintf("%s:%s#%x", name, coll, h.Sum64()&0xffffff)
 }
 
 func (c *gatedConn) Write(b []byte) (int, error) {
